@@ -1431,6 +1431,7 @@ func (c *C14Case) runCLI(ctx *Ctx, o *Outcome, al align.Alignment) {
 		args string
 		want func() (string, bool)
 	}
+	inputs := map[string][]string{} // command line -> the rows of its input, when they are not those of the case
 	b2 := func(k int) (bool, bool) { return k&1 != 0, k&2 != 0 }
 	flags := func(ig, in bool) string {
 		s := ""
@@ -1601,6 +1602,44 @@ func (c *C14Case) runCLI(ctx *Ctx, o *Outcome, al align.Alignment) {
 			return sb.String(), true
 		}})
 	}
+	// the difference view relative to the first sequence and back, by their definitions; the way back starts from
+	// the difference view of the alignment (rows full of '.')
+	view := func(rows []string, rev bool) []string {
+		out := make([]string, len(rows))
+		for i := range rows {
+			b := []byte(rows[i])
+			for k := range b {
+				f := rows[0][k]
+				switch {
+				case i == 0:
+				case !rev && b[k] == f:
+					b[k] = '.'
+				case rev && b[k] == '.' && f != '.':
+					b[k] = f
+				}
+			}
+			out[i] = string(b)
+		}
+		return out
+	}
+	for _, rev := range []bool{false, true} {
+		a := "diff"
+		in := c.Aln.Seqs
+		if rev {
+			a += " --reverse"
+			in = view(c.Aln.Seqs, false)
+		}
+		inputs[a] = in
+		jobs = append(jobs, job{a, func() (string, bool) {
+			x := align.NewAlign(al.Alphabet())
+			for i, row := range view(in, rev) {
+				if x.AddSequence(c.Aln.Names[i], row, "") != nil {
+					return "", false
+				}
+			}
+			return fasta.WriteAlignment(x), true
+		}})
+	}
 	// character counts: of the alignment, per site, per sequence; all characters or one (present or not)
 	onlyCands := []string{"*", "*", "A", "-", "N", "G", "Q", "X", "L"}
 	for _, mode := range []string{"", " --per-sites", " --per-sequences"} {
@@ -1699,6 +1738,11 @@ func (c *C14Case) runCLI(ctx *Ctx, o *Outcome, al align.Alignment) {
 			continue
 		}
 		args := append(strings.Fields(j.args), "-i", "in.fa")
+		if rows, ok := inputs[j.args]; ok {
+			files = map[string]string{"in.fa": fastaOf(c.Aln.Names, rows)}
+		} else {
+			files = map[string]string{"in.fa": fastaOf(c.Aln.Names, c.Aln.Seqs)}
+		}
 		res := runInProc(ctx, args, files, c.MapSeeds[1], 1700000000e9)
 		o.Add("command_line_executions", 1)
 		what := "goalign " + strings.Join(args, " ")
